@@ -152,9 +152,9 @@ Lemma unit_txn_pre : forall cfg u, unit_no_exchange u = true ->
 Proof.
   intros cfg [e|e d] X.
   - eexists. split; [reflexivity|].
-    pose proof (base_txn_fields e (en_frag e) (to_data (en_amount e) (en_cd e)) None) as B.
+    pose proof (base_txn_fields e (en_frag e) (to_data (en_amount e) (en_cd e)) (Some (entry_code e))) as B.
     cbv zeta in B. cbn [unit_amount unit_cd unit_frag unit_transferred]. tauto.
-  - pose proof (base_txn_fields e (td_frag d) (to_data (td_amount d) (td_cd d)) (Some (td_ref d))) as B.
+  - pose proof (base_txn_fields e (td_frag d) (to_data (td_amount d) (td_cd d)) (Some (detail_code d))) as B.
     cbv zeta in B. destruct B as (_ & _ & B3 & B4 & B5 & B6 & B7 & B8 & _).
     cbn [unit_txn unit_charges unit_amount unit_cd unit_frag unit_transferred].
     unfold detail_txn. cbn [unit_no_exchange] in X.
